@@ -380,7 +380,32 @@ func runC14One(cs *vrt.Case) {
 func c14RoundTrip(cs *vrt.Case, r *vrt.Rng) {
 	var c *circuit.Circuit
 	kind := "generated"
-	if cs.Idx/5 < len(c14Programs) {
+	if k := cs.Idx/5 - len(c14Programs); k >= 0 && k < 4 {
+		// programs with unsized (slice / string / uint) arguments instantiated
+		// from input sizes: their I/O types carry a size that the type text alone
+		// does not give
+		kind = "compiled with instantiated unsized arguments"
+		src := []string{
+			"package main\n\nfunc main(a, b []byte) ([]byte, uint8) {\n\tvar s uint8\n\tfor i := 0; i < len(a); i++ {\n\t\ts = s ^ a[i]\n\t}\n\treturn b, s\n}\n",
+			"package main\n\nfunc main(a []uint16, b uint) (uint, uint16) {\n\treturn b + 1, a[0] + a[len(a)-1]\n}\n",
+			"package main\n\nfunc main(a []byte, b []byte) ([]byte, []byte, uint8) {\n\treturn b, a, a[0] ^ b[0]\n}\n",
+			"package main\n\nfunc main(a []int32, b []byte) ([]int32, []byte) {\n\treturn a, b\n}\n",
+		}[k]
+		n1, n2 := r.Range(1, 9), r.Range(1, 9)
+		es := []int{8, 16, 8, 32}[k]
+		sizes := [][]int{{n1 * es}, {n2 * 8}}
+		if k == 1 {
+			sizes[1] = []int{r.Range(2, 70)}
+		}
+		var err error
+		var pi *vrt.PanicInfo
+		c, err, pi = compileMPCL(src, nil, sizes)
+		if pi != nil || err != nil {
+			cs.Inconc(fmt.Sprintf("fixture program with unsized arguments does not compile: %v %v", err, pi))
+			return
+		}
+		cs.Count("roundtrips_of_instantiated_unsized_signatures", 1)
+	} else if cs.Idx/5 < len(c14Programs) {
 		kind = "compiled"
 		var err error
 		var pi *vrt.PanicInfo
